@@ -1,9 +1,17 @@
 import RbV.Basic.Codec
 import RbV.Ref.BS
+import RbV.Model.LFMapping
+import RbV.Model.LFSortedCheck
+import RbV.Model.SampledSA
+import RbV.Model.SampleBuild
 /-! Driver for property C05: FM-index backward search.
 
 `c05 <s1>/<s2>/… a:<alphabet> k:<occ rate> s:<sa sampling> m:<o|b|a> <p1>/<p2>/… => <sa> <r1>/<r2>/…`
 text = every sequence followed by `$`;  `r` = `A` | `C:lo:hi:<occ full>:<occ sampled>` | `P:lo:hi:l:<occ full>:<occ sampled>`.
+
+The mirror model of `backward_search` (`BSModel.backwardSearch`, proved correct on sorted arrays:
+`RbV.Thm.C05.backward_search_correct`) is run on `less`/`occ` recomputed from the printed array; a result that differs
+from the implementation's is reported as tag `drift` (never a violation: the verdict is the property-level check).
 
 Verdict: every result is accepted by `checkBS` (theorem `RbV.Thm.C05.checkBS_iff`) against the printed suffix array,
 and the position lists produced by `Interval::occ` through the full and through the sampled array are, as sets,
@@ -64,6 +72,27 @@ def firstBad (t sa : List Nat) : List (List Nat) → List Obs → Nat → Option
     | none => firstBad t sa ps os (i + 1)
   | _, _, _ => none
 
+/-- does the mirror model, run on `less`/`occ` of the BWT of `(t, sa)`, return what the implementation returned? -/
+def modelAgrees (t sa : List Nat) (pats : List (List Nat)) (obs : List Obs) : Bool :=
+  let bwt := LF.bwtOf t sa
+  (pats.zip obs).all (fun (p, o) =>
+    BSModel.backwardSearch (LF.lessRef bwt) (LF.occRef bwt) sa.length p == o.res)
+
+/-- mirror model of `SampledSuffixArray::get` on the first rows of every reported interval against the positions
+the implementation resolved through its sampled array (`none` = not evaluated: too expensive) -/
+def sampledModelAgrees (t sa : List Nat) (s : Nat) (obs : List Obs) : Option Bool :=
+  if s > 16 && sa.length > 130 then none else
+  let bwt := LF.bwtOf t sa
+  let sent := t.getD (t.length - 1) 0
+  let built := SampledModel.build sa bwt s sent sa.length
+  let get := SampledModel.get s bwt sent (LF.lessRef bwt) (LF.occRef bwt)
+    (SampledModel.sampleGet built.1) (SampledModel.extraGet built.2) sa.length
+  some (obs.all (fun o =>
+    match o.res, o.samp with
+    | .complete lo _, some g => ((g.take 6).zipIdx).all (fun (v, i) => get (lo + i) == some v)
+    | .part lo _ _, some g => ((g.take 6).zipIdx).all (fun (v, i) => get (lo + i) == some v)
+    | _, _ => true))
+
 def kindTag : BSRes → String
   | .complete _ _ => "complete"
   | .part _ _ _ => "partial"
@@ -92,7 +121,10 @@ def verdict (toks : List String) (out : String) : String :=
             | none =>
               let kinds := obs.map (fun o => kindTag o.res)
               let nt := (pats.zip obs).any (fun (p, o) => p.length ≥ 2 && o.res != .absent)
-              "ok" ++ tagIf nt "nt" ++ tagIf (kinds.contains "complete") "complete"
+              "ok" ++ tagIf nt "nt" ++ (if modelAgrees t sa pats obs then " model=impl" else " drift")
+                ++ (if LF.sortedAllB t sa then " lf-sorted" else " not-lf-sorted")
+                ++ (match sampledModelAgrees t sa sN obs with
+                    | some true => " sampled-model=impl" | some false => " sampled-drift" | none => "") ++ tagIf (kinds.contains "complete") "complete"
                 ++ tagIf (kinds.contains "partial") "partial" ++ tagIf (kinds.contains "absent") "absent"
                 ++ tagIf (seqs.length ≥ 2) "multi-sentinel" ++ tagIf (seqs.any (·.isEmpty)) "empty-seq"
                 ++ tagIf (kN > 64) "k>64" ++ tagIf (kN = 64) "k=64" ++ tagIf (kN < 64) "k<64"
